@@ -133,7 +133,8 @@ def scope_inputs(scope, n1, n2):
     if scope == "input_fields":
         return f"type Query {{ f(i: I): Int }}\ninput I {{ {n1}: Int {n2}: Int }}\n", "query P($i: I) { f(i: $i) }\n"
     if scope == "variables":
-        return "type Query { f(a: Int, b: Int): Int }\n", f"query P(${n1}: Int, ${n2}: Int) {{ f(a: ${n1}, b: ${n2}) }}\n"
+        # (a nullable variable declared before a required one: the signature reorders them, the wire names must not move)
+        return "type Query { f(a: Int, b: Int): Int }\n", f"query P(${n1}: Int, ${n2}: Int!) {{ f(a: ${n1}, b: ${n2}) }}\n"
     if scope == "operations":
         return "type Query { a: Int b: Int }\n", f"query {n1} {{ a }}\nquery {n2} {{ b }}\n"
     if scope == "typename_alias":
@@ -252,7 +253,12 @@ def scope_case(case):
                 if len(params) != 2:
                     P.append(("names_merged", f"method parameters {params}"))
                 else:
-                    clients.call(is_async, c.p, **{params[0]: 1, params[1]: 2})
+                    # n2 is the required variable: its parameter is the one without a default
+                    sig = inspect.signature(mod.Client.p).parameters
+                    req = [p for p in params if sig[p].default is inspect.Parameter.empty]
+                    p2 = req[0] if len(req) == 1 else params[1]
+                    p1 = next(p for p in params if p != p2)
+                    clients.call(is_async, c.p, **{p1: 1, p2: 2})
                     sent = captured[-1]["variables"]
                     if sent != {n1: 1, n2: 2}:
                         P.append(("names_merged", f"sent variables {sent} for parameters {params}"))
